@@ -422,7 +422,8 @@ def viewer_obligations(ix, R):
 
 def chord_obligations(ix, R, site):
     f = ix.func(site)
-    fl = mkflow(ix, site)
+    # the planet radius and the first layer thickness are scalars; dz and z are per-layer arrays
+    fl = mkflow(ix, site, scalars=['self._planet.fullRadius', '%s[0]' % f.params()[1]])
     dz = fl.tab.name(f.params()[1])
     # one append per layer of 2*k
     apps = [e for e in calls(fl, 'append')]
